@@ -209,8 +209,11 @@ class StmtMixin:
             return v.items
         if isinstance(v, Ref) and v.kind in ("list", "bytearray") and not st.heap[v.ident].opaque:
             return st.heap[v.ident].items
-        if isinstance(v, Bytes) and len(v.parts) == 1 and v.parts[0][0][0] == "const":
-            return [Const(b) for b in v.parts[0][0][1]]
+        if isinstance(v, Bytes) and v.parts and all(p[0][0] == "const" or (p[0][0] == "items" and len(p[0]) > 2) for p in v.parts):
+            out = []
+            for tag, _ln in v.parts:
+                out.extend([Const(b) for b in tag[1]] if tag[0] == "const" else list(tag[2]))
+            return out
         return None
 
     def length_of(self, v, st):
@@ -290,8 +293,10 @@ class StmtMixin:
             if isinstance(base, Seq):
                 return Seq(sub, base.kind)
             if isinstance(base, Bytes):
-                cb = base.parts[0][0][1][klo:khi]
-                return Bytes([(("const", cb), Const(len(cb)))], base.kind)
+                if len(base.parts) == 1 and base.parts[0][0][0] == "const":
+                    cb = base.parts[0][0][1][klo:khi]
+                    return Bytes([(("const", cb), Const(len(cb)))], base.kind)
+                return Bytes([(("items", tuple(norm(i).key() for i in sub), tuple(sub)), Const(len(sub)))], base.kind)
             if isinstance(base, Ref):
                 if base.kind == "bytearray":
                     return st.alloc("bytearray", items=list(sub))
@@ -520,6 +525,17 @@ class StmtMixin:
                 self.cuts += 1
             else:
                 raise AnalysisError("break/continue escaped %s" % func.qualname)
+        mk = getattr(self.model, "merge_key", None)
+        if mk is not None and len(res) > 1:
+            seen, merged = {}, []
+            for s, v in res:
+                k = mk(self, func, s, v)
+                if k is None:
+                    merged.append((s, v))
+                elif k not in seen:
+                    seen[k] = True
+                    merged.append((s, v))
+            res = merged
         return res
 
     # ----------------------------------------------------------- statements
@@ -538,6 +554,17 @@ class StmtMixin:
                     continue
                 nxt.extend(m(stmt, s, fr))
             cur = nxt
+            lk = getattr(self.model, "loop_key", None)
+            if lk is not None and len(cur) > 1:
+                seen, ded = set(), []
+                for kind, s, v in cur:
+                    if kind == "next":
+                        k = lk(self, s, fr)
+                        if k in seen:
+                            continue
+                        seen.add(k)
+                    ded.append((kind, s, v))
+                cur = ded
             if not any(k == "next" for k, _s, _v in cur):
                 break
         return cur
@@ -622,6 +649,13 @@ class StmtMixin:
 
     def st_If(self, n, st, fr):
         out = []
+        # `if <clock test>: time.sleep(..)` has no effect on the abstract state: do not fork on it
+        if not n.orelse and all(isinstance(b, ast.Expr) and isinstance(b.value, ast.Call) and isinstance(b.value.func, ast.Attribute)
+                                and b.value.func.attr == "sleep" for b in n.body):
+            res = self.branch(n.test, st, fr, record=False)
+            if len(res) == 1 and res[0][1] is None:
+                self.event(res[0][0], fr, "sleep-maybe", n, None)
+                return [("next", res[0][0], None)]
         for s, t in self.branch(n.test, st, fr):
             if isinstance(t, Raised):
                 out.append(("raise", s, t))
